@@ -714,7 +714,7 @@ def main(argv=None):
     ck.run_gate(ck.extra['modules'], ['Props.C20'])
     rng = ck.rng
     quick = not ck.thorough
-    nA, nB, nC, nD = (200, 60, 40, 100) if quick else (6000, 1500, 500, 3000)
+    nA, nB, nC, nD = (200, 60, 40, 100) if quick else (10000, 1500, 500, 5000)
     only = None
     cases_a = []
     seeds_b, seeds_c, sched_cases = [], [], []
